@@ -46,6 +46,19 @@ func parseFormat(f string) ([]fmtSeg, bool) {
 }
 
 func (x *Exec) sprintfFacts(st *State, format string, args []Value, r StrV) {
+	// content facts are generated only for functions whose contract asks for
+	// them ("ghost sprintf-content"); everywhere else the result is known by its identity tag only
+	want := false
+	if x.cur != nil && x.cur.Contract != nil {
+		for _, g := range x.cur.Contract.Ghost {
+			if g == "sprintf-content" {
+				want = true
+			}
+		}
+	}
+	if !want {
+		return
+	}
 	segs, ok := parseFormat(format)
 	if !ok {
 		return
